@@ -39,8 +39,7 @@ MASK_REF = '''def blk():
         mask = ones(T_.size, dtype=bool)
     else:
         mask = zeros(T_.size, dtype=bool)
-        try: mask[sorted(index[0], key=abs)] = True
-        except IndexError: pass
+        mask[[i for i in index[0] if -mask.size <= i < mask.size]] = True
     return mask
 '''
 
@@ -58,6 +57,14 @@ def index_mask_idiom(ctx):
         ctx.stats['terms_compared'] += len(got)
         ctx.check(got == want, name + '#mask', 'all entries when index is None, else exactly the given in-range indices',
                   '%s selects its entries differently from its siblings: %s' % (name, SB.diff(got, want)), f, ifs[0])
+        # numpy performs a fancy-index assignment all or nothing: under `except IndexError: pass` a single out-of-range index
+        # would leave the mask empty, i.e. switch the whole selection off
+        atomic = [t_ for t_ in ast.walk(ifs[0]) if isinstance(t_, ast.Try) and any(h.type is not None and 'IndexError' in unparse(h.type) for h in t_.handlers)
+                  and any(isinstance(s_, ast.Assign) and isinstance(s_.targets[0], ast.Subscript) and not isinstance(s_.targets[0].slice, (ast.Name, ast.Constant, ast.UnaryOp))
+                          for s_ in t_.body)]
+        ctx.check(not atomic, name + '#mask-atomic', 'the selected positions are filtered, not assigned all-or-nothing under except IndexError',
+                  '%s builds its mask with one fancy-index assignment inside try/except IndexError: one out-of-range index leaves the mask empty, so the in-range indices given with it are not transformed either' % name,
+                  f, atomic[0] if atomic else ifs[0], statement='mask[<indices>] = True under except IndexError')
         ch = calls_where(f.node, lambda c: callee_text(c) == 'choose')
         ctx.need(ch, '%s: choose(...) not found' % name)
         a = ch[0].args
@@ -272,7 +279,7 @@ def bounded_membership_and_addressing(ctx):
             if isinstance(tg, ast.Name) and tg.id == 'at' and at_first is None:
                 at_first = (st, T.simp(b.t(st.value)))
             if isinstance(tg, ast.Subscript) and isinstance(tg.value, ast.Name) and tg.value.id == 'seq':
-                stores.append((st, T.simp(b.t(tg.slice))))
+                stores.append((st, T.simp(T.term(tg.slice))))
                 continue
         # parameters stay symbolic (their normalisations - index = (index,), bounds = asarray(bounds).T - keep their meaning);
         # only unguarded plain locals are substituted
@@ -324,11 +331,44 @@ def bounded_membership_and_addressing(ctx):
     negated = at0[0] == 'sub' and at0[1][0] == 'call' and T.show(at0[1][1]) == 'where' and at0[1][2] and at0[1][2][0][0] == 'cmp' and \
         at0[1][2][0][1] == '==' and ('const', False) in at0[1][2][0][2:]
     ctx.check(negated, 'bounded#outside', 'at = where(<in some interval> == False)', 'the out-of-bounds set is no longer the complement of the union of intervals: %s' % T.show(at0)[:200], f, st0)
-    want = ('ifexp', T.mk_cmp('is', IDX, ('const', None)), at0, ('call', ('name', 'intersect1d'), (at0, IDX), ()))
+    # the set that is finally written: `at` as it stands before the first store, folded over the index test.  With index
+    # None it is the out-of-bounds set; otherwise intersect1d(<out of bounds>, <positions>), where the positions are
+    # computed from `index` alone and negative indices are converted (intersect1d compares raw values: index itself
+    # would never match a negative entry)
     ctx.need(len(stores) >= 4, 'bounded: expected >= 4 stores into seq, found %d' % len(stores))
+    first_store = min(st.lineno for st, ix in stores)
+    pre = [st for st in f.node.body if st.lineno < first_store and st.lineno >= st0.lineno]
+    AT = combined_value(pre, 'at')
+    ctx.need(AT is not None, 'bounded: the written index set is not bound on every path')
+    is_none = T.mk_cmp('is', IDX, ('const', None))
+    cases = []
+    for cl, leaf in T.cases(AT):
+        cases.append((decided(is_none, list(cl)), leaf))
+    ok_none = [leaf for d_, leaf in cases if d_ is True]
+    ok_some = [leaf for d_, leaf in cases if d_ is False]
+    undec = [leaf for d_, leaf in cases if d_ is None]
+    good = bool(ok_none) and bool(ok_some) and not undec and all(leaf == at0 for leaf in ok_none)
+    pos_ok = True
+    raw = False
+    for leaf in ok_some:
+        if not (leaf[0] == 'call' and T.show(leaf[1]) == 'intersect1d' and len(leaf[2]) == 2 and leaf[2][0] == at0):
+            good = False
+            continue
+        P = leaf[2][1]
+        names_in = set(x[1] for x in T.subterms(P) if isinstance(x, tuple) and len(x) == 2 and x[0] == 'name')
+        if P == IDX:
+            raw = True
+        elif not (names_in <= {'index', 'seq', 'len', '_b0', 'n', 'range'} and 'index' in names_in):
+            pos_ok = False
+    ctx.stats['terms_compared'] += len(cases)
+    ctx.check(good and pos_ok, 'bounded#selected', 'written set = out-of-bounds entries when index is None, else intersect1d(out-of-bounds, positions computed from index)',
+              'bounded writes the entries %s' % T.show(AT)[:200], f, st0)
+    ctx.check(not raw, 'bounded#negative-index', 'negative indices are converted to positions before the intersection',
+              'bounded intersects the out-of-bounds positions with the raw index values: a negative index never matches a position, so impose_bounds(..., index=(-1,)) leaves the last entry unclipped',
+              f, st0, statement='intersect1d(at, index) on raw index values')
     for st, ix in stores:
         ctx.stats['terms_compared'] += 1
-        ctx.check(ix == want, 'bounded#store', 'seq[<out of bounds, restricted to index>] = ...',
+        ctx.check(ix == ('name', 'at') or ix == AT, 'bounded#store', 'seq[at] = ... (the restricted out-of-bounds set)',
                   'bounded stores into seq[%s]: entries that are inside their interval or not selected by index are rewritten' % T.show(ix)[:120], f, st)
 
 
